@@ -1,0 +1,62 @@
+//go:build verif
+
+package redisemu
+
+// C20: what RequestTermination does (sequential effects only): the listener is
+// closed exactly once, the lane is cancelled exactly once, every connection the
+// emulator accepted is asked to close, nothing is left to do for a second
+// call; a connection that arrives after termination was requested is closed
+// at once, otherwise it is remembered for termination.
+
+//@ ghost gListenerCloses int
+//@ ghost gCancels int
+//@ ghost gCloseRequests int
+
+//@ func clientCxn.RequestClose
+//@ trusted marks the connection closing, closes a socket that is being read and queues the terminate state
+//@ requires cc != nil
+//@ modifies cc->closing
+//@ effect gCloseRequests = gCloseRequests + 1
+//@ ensures cc.closing
+
+//@ func clientCxn.IsCloseRequested
+//@ trusted
+//@ pure
+//@ requires cc != nil
+//@ ensures result == cc.closing
+
+//@ func RedisEmu.RequestTermination
+//@ prop C20
+//@ safetyprop none
+//@ mode int
+//@ requires eng != nil
+//@ requires free tracked: all(k, 0, len(eng.cxns), eng.cxns[k] != nil)
+//@ ghostentry gListenerCloses = 0
+//@ ghostentry gCancels = 0
+//@ ghostentry gCloseRequests = 0
+//@ ghostafter "eng.server.Close()" : gListenerCloses = gListenerCloses + 1
+//@ ghostafter "eng.cancelFn()" : gCancels = gCancels + 1
+//@ modifies eng->server eng->cancelFn eng->cxns clientCxn.closing ghost.gListenerCloses ghost.gCancels ghost.gCloseRequests ghost.mutexHeld
+//@ loop 1 invariant [C20] asked: gCloseRequests == ri1 && gListenerCloses == ite(old(eng.server) != nil, 1, 0) && gCancels == ite(old(eng.cancelFn) != nil, 1, 0) && eng.cxns == old(eng.cxns)
+//@ loop 1 invariant [C20] closing: all(k, 0, ri1, eng.cxns[k].closing)
+//@ ensures [C20] listener.closed: eng.server == nil && gListenerCloses == ite(old(eng.server) != nil, 1, 0)
+//@ ensures [C20] cancelled: eng.cancelFn == nil && gCancels == ite(old(eng.cancelFn) != nil, 1, 0)
+//@ ensures [C20] connections.asked: gCloseRequests == old(len(eng.cxns)) && eng.cxns == nil
+//@ ensures [C20] connections.closing: all(k, 0, old(len(eng.cxns)), old(eng.cxns)[k].closing)
+
+//@ func RedisEmu.trackConnection
+//@ prop C20
+//@ safetyprop none
+//@ mode int
+//@ requires eng != nil && cc != nil
+//@ requires free tracked: all(k, 0, len(eng.cxns), eng.cxns[k] != nil)
+//@ ghostentry gCloseRequests = 0
+//@ modifies eng->cxns clientCxn.closing ghost.gCloseRequests ghost.mutexHeld
+//@ loop 1 invariant [C20] kept: len(live) <= ri1 && all(k, 0, len(live), live[k] != nil && !live[k].closing) && gCloseRequests == 0
+//@ ensures [C20] late: eng.server == nil ==> gCloseRequests == 1 && cc.closing && eng.cxns == old(eng.cxns)
+//@ ensures [C20] tracked: eng.server != nil ==> len(eng.cxns) >= 1 && eng.cxns[len(eng.cxns)-1] == cc && gCloseRequests == 0
+//@ ensures [C20] live.only: eng.server != nil ==> all(k, 0, len(eng.cxns)-1, eng.cxns[k] != nil && !eng.cxns[k].closing)
+
+//@ func net.Listener.Close
+//@ trusted closing the listening socket: no effect on the emulator state modelled here
+//@ modifies
